@@ -150,7 +150,7 @@ func tokenInit(p *core.Prog, r *core.Result) {
 			continue
 		}
 		methods = append(methods, f)
-		if f.Name() == "init" || f.Name() == "Parse" {
+		if core.FuncName(f) == "init" || core.FuncName(f) == "Parse" {
 			continue
 		}
 		for _, b := range f.Blocks {
@@ -197,7 +197,7 @@ func tokenInit(p *core.Prog, r *core.Result) {
 	}
 	sites := 0
 	for _, g := range methods {
-		if g.Name() == "init" {
+		if core.FuncName(g) == "init" {
 			continue
 		}
 		stores := map[string]bool{}
@@ -216,7 +216,7 @@ func tokenInit(p *core.Prog, r *core.Result) {
 						}
 					}
 				case *ssa.Call:
-					if sc := x.Common().StaticCallee(); sc != nil && sc.Name() == "pushState" && len(x.Common().Args) == 2 {
+					if sc := x.Common().StaticCallee(); sc != nil && core.FuncName(sc) == "pushState" && len(x.Common().Args) == 2 {
 						if v, ok := constIntVal(x.Common().Args[1]); ok {
 							entries = append(entries, v)
 						}
